@@ -171,6 +171,16 @@ def loaded_elements(tr, case):
             "tasks": [{"name": t.name, "clients": t.clients, "iterations": t.iterations, "warmup_iterations": t.warmup_iterations,
                        "completes": t.completes_parent, "any": t.any_completes_parent} for t in leafs],
         })
+    # completed-by is what the track file says, not what the loader made of it: where the loaded schedule still has the elements that were
+    # written (no task filter removed anything), the flags of the loaded tasks are replaced by the written ones - a loader that marks a task of
+    # ANOTHER element as completing would otherwise excuse the cut it causes
+    written = case["elements"]
+    if len(out) == len(written) and all([t["name"] for t in o["tasks"]] == [t["name"] for t in w["tasks"]] for o, w in zip(out, written)):
+        for o, w in zip(out, written):
+            cb = w.get("completed_by")
+            o["completed_by"] = cb
+            for t in o["tasks"]:
+                t["completes"], t["any"] = cb == t["name"], cb == "any"
     return out
 
 
